@@ -11,8 +11,11 @@ BEGIN, END = "<!-- seeded-table:begin -->", "<!-- seeded-table:end -->"
 OUTSIDE = {"C17-min-max-as-fmin-fmax": "**outside the claim**: NaN operands of `min`/`max` are not documented (assumed away, listed in the evidence)",
            "C03-scalar-fast-path-keeps-float32": "**missed** (documented: dtypes other than float64 are outside the model)",
            "C05-very-keeps-caller-dtype": "**missed** (documented: dtypes other than float64 are outside the model)",
+           "C11-ramp-keeps-array-dtype": "**missed** (documented: dtypes other than float64 are outside the model)",
+           "C15-discrete-row-fast-path-bare-inf": "**missed** (documented: concrete infinities inside a symbolic array are written by the shim itself)",
            "C15-repr-float-fifteen-digits": "**missed** (documented: digit-level rendering is outside the model)"}
-THOROUGH_ONLY = {"C11-sigmoid-reciprocal-height-log-zero": "thorough tier only, and only on an idle machine (`Sigmoid/F/finite/exact`, a query of about 10 min; under load it ends inconclusive, which the check reports as such)"}
+THOROUGH_ONLY = {"C05-seldom-large-array-strict-masks": "thorough tier (`seldom/R/large`: a 16385-element array, about a minute per hedge)",
+                 "C11-sigmoid-reciprocal-height-log-zero": "thorough tier only, and only on an idle machine (`Sigmoid/F/finite/exact`, a query of about 10 min; under load it ends inconclusive, which the check reports as such)"}
 
 
 def main():
